@@ -20,12 +20,19 @@ def dot(A, B): return alg.S([alg.P(a, b) for a, b in zip(A, B)])
 
 def lemmas(idx):
     order = []; seen = {}; cover = []; notes = {'untranslated': []}; n = 0
-    def add(cfg, f, vs, args, ret_t, lanes, sname, hyps=(), tactic='alg_ring', scalar_k=None):
+    def acos_fid(cfg, k):
+        key = 'crate::%s::math::std_math::acos_approx' % k
+        return next((g['fid'] for g in idx.fns(cfg) if g['key'] == key and g['fid'] is not None), None)
+    def add(cfg, f, vs, args, ret_t, lanes, sname, hyps=(), tactic='alg_ring', scalar_k=None, tblx='tbl', rhs_fmt=None):
         nonlocal n
         args = alg.kxargs(args); lanes = alg.kxl(lanes)
         if f['fid'] is None or f.get('status') == 'missing-callee': notes['untranslated'].append('%s %s' % (cfg, f['key'])); return
-        structs = idx.structs(cfg); run = 'rnorm (run OA tbl 400 %d%%positive [%s])' % (f['fid'], '; '.join(args))
-        if scalar_k: rhs = 'Ok (%s %s)' % (VF(scalar_k), lanes[0]); sh = 'SL'
+        structs = idx.structs(cfg); run = 'rnorm (run OA %s 400 %d%%positive [%s])' % (tblx, f['fid'], '; '.join(args))
+        if rhs_fmt is not None:
+            rt = sym(structs, ret_t, 'r', []) if ret_t is not None else None
+            rhs = rhs_fmt % (tree_fill(rt, iter(lanes)) if rt is not None else ''); sh = ty_shape(structs, f['ret'])
+            if rt is not None and len(tree_leaves(rt)) != len(lanes): return
+        elif scalar_k: rhs = 'Ok (%s %s)' % (VF(scalar_k), lanes[0]); sh = 'SL'
         else:
             rt = sym(structs, ret_t, 'r', [])
             if len(tree_leaves(rt)) != len(lanes): return
@@ -62,6 +69,33 @@ def lemmas(idx):
                 elif name == 'reflect' and same: add(cfg, f, vs, args, st, ['(%s - (k1 + k1) * %s * %s)%%K' % (x, dot(A, Bv), y) for x, y in zip(A, Bv)], 'reflect = a - 2 (a.n) n')
                 elif name == 'length' and not ps: add(cfg, f, vs, [tree_coq(a)], None, ['(k_un FSqrt %s)' % dot(A, A)], 'length = sqrt(sum of squares)', tactic='alg_congr', scalar_k=k)
                 elif name == 'distance' and same: D = ['(%s - %s)' % (x, y) for x, y in zip(A, Bv)]; add(cfg, f, vs, args, None, ['(k_un FSqrt %s)' % dot(D, D)], 'distance = sqrt(sum of squared differences)', tactic='alg_congr', scalar_k=k)
+                elif name == 'length_recip' and not ps: add(cfg, f, vs, [tree_coq(a)], None, ['(k1 / k_un FSqrt %s)%%K' % dot(A, A)], 'length_recip = 1 / sqrt(sum of squares)', tactic='alg_congr', scalar_k=k)
+                elif name == 'normalize' and not ps and cfg in ('sse2', 'scalar', 'coresimd'):
+                    add(cfg, f, vs, [tree_coq(a)], st, ['(%s * (k1 / k_un FSqrt %s))%%K' % (x, dot(A, A)) for x in A], 'normalize = self * (1 / length)', tactic='alg_congr')
+                elif name in ('try_normalize', 'normalize_or_zero') and not ps or name == 'normalize_or' and same:
+                    rcp = '(k1 / k_un FSqrt %s)%%K' % dot(A, A); scaled = ['(%s * %s)%%K' % (x, rcp) for x in A]; ar = args if same else [tree_coq(a)]
+                    good = [alg.pred_hyp('FIsFinite', rcp, True), alg.cmp_hyp('FGt', rcp, 'k0', True)]
+                    bad1 = [alg.pred_hyp('FIsFinite', rcp, False)]; bad2 = [alg.pred_hyp('FIsFinite', rcp, True), alg.cmp_hyp('FGt', rcp, 'k0', False)]
+                    if name == 'try_normalize':
+                        rt_ = sym(structs, st, 'r', []); some = 'Ok (VOpt (Some (%s)))' % tree_fill(rt_, iter(alg.kxl(scaled)))
+                        add(cfg, f, vs, ar, None, [], 'try_normalize: 1/length finite and positive -> Some (self / length)', hyps=good, tactic=alg.cond_tac(), rhs_fmt=some.replace('%', '%%') + '%s')
+                        add(cfg, f, vs, ar, None, [], 'try_normalize: 1/length not finite -> None', hyps=bad1, tactic=alg.cond_tac(), rhs_fmt='Ok (VOpt None)%s')
+                        add(cfg, f, vs, ar, None, [], 'try_normalize: 1/length not positive -> None', hyps=bad2, tactic=alg.cond_tac(), rhs_fmt='Ok (VOpt None)%s')
+                    else:
+                        fb = Bv if same else ['k0'] * len(A)
+                        add(cfg, f, vs, ar, st, scaled, '%s: 1/length finite and positive -> self / length' % name, hyps=good, tactic=alg.cond_tac())
+                        add(cfg, f, vs, ar, st, fb, '%s: 1/length not finite -> fallback' % name, hyps=bad1, tactic=alg.cond_tac())
+                        add(cfg, f, vs, ar, st, fb, '%s: 1/length not positive -> fallback' % name, hyps=bad2, tactic=alg.cond_tac())
+                elif name == 'refract' and len(ps) == 2 and tname(ps[0][1]) == tn and ps[1][1] == k:
+                    b = sym(structs, st, 'b', vs); e_ = sym(structs, k, 'e', vs); Bv = [l[2] for l in tree_leaves(b)]; eta = e_[2]; ar = [tree_coq(a), tree_coq(b), tree_coq(e_)]
+                    ndi = dot(Bv, A); kk = '(k1 - %s * %s * (k1 - %s * %s))%%K' % (eta, eta, ndi, ndi)
+                    add(cfg, f, vs, ar, st, ['(%s * %s - (%s * %s + k_un FSqrt %s) * %s)%%K' % (eta, x, eta, ndi, kk, y) for x, y in zip(A, Bv)], 'refract: k >= 0 -> eta i - (eta (n.i) + sqrt k) n', hyps=[alg.cmp_hyp('FGe', kk, 'k0', True)], tactic=alg.cond_tac())
+                    add(cfg, f, vs, ar, st, ['k0'] * len(A), 'refract: k < 0 (total internal reflection) -> zero', hyps=[alg.cmp_hyp('FGe', kk, 'k0', False)], tactic=alg.cond_tac())
+                elif name in ('angle_between', 'angle_to') and same and acos_fid(cfg, k) is not None:
+                    cosv = '(%s / k_un FSqrt (%s * %s))%%K' % (dot(A, Bv), dot(A, A), dot(Bv, Bv)); ac = '(k_un FAcos %s)' % cosv
+                    tblx = '(override tbl %d%%positive (stub1 %s FAcos))' % (acos_fid(cfg, k), 'K32' if k == 'f32' else 'K64')
+                    if name == 'angle_between' or d != 2: add(cfg, f, vs, args, None, [ac], '%s = acos((a.b) / sqrt((a.a)(b.b))) with acos_approx abstracted to the arccos primitive' % name, tactic='alg_congr', scalar_k=k, tblx=tblx)
+                    else: add(cfg, f, vs, args, None, ['(%s * k_un FSignum (%s * %s - %s * %s))%%K' % (ac, A[0], Bv[1], A[1], Bv[0])], 'angle_to = acos(cos) * signum(perp_dot) with acos_approx abstracted', tactic='alg_congr', scalar_k=k, tblx=tblx)
             except SymErr: continue
     files = {}; nfiles = max(1, (len(order) + 7) // 8)
     for i, lem in enumerate(order): files.setdefault('Geo_%03d' % (i % nfiles), []).append(lem)
@@ -72,7 +106,7 @@ def run(tier, seed):
     t0 = time.time(); idx, info = flow.prepare()
     files, notes, cover = lemmas(idx)
     per_fn = 8 if tier == 'quick' else 80
-    return f1.run('C02', tier, seed, idx, info, t0, files, notes, cover, alg.BOILER, per_fn,
+    return f1.run('C02', tier, seed, idx, info, t0, files, notes, cover, alg.BOILER_MOD, per_fn,
         'one algebraic lemma per geometric function (dot, cross, perp_dot, length(_squared), distance(_squared), element sum/product, project/reject, reflect) of the 7 float vector types in three backends against the textbook formula over an arbitrary field; correspondence: %d random calls per function' % per_fn,
         ['textbook formulas in harness/props/C02.py'],
         ['PARTIAL: the rounding-error bounds the property states are not proved; normalize family, refract, angle_between are differential (and C18) only'], footer=alg.FOOTER)
